@@ -29,6 +29,7 @@ def run_seq(prop, tier, test, assumptions, rule, level='model_checking', env=Non
     for r in rs:
         for k, c in (r.get('end_states') or {}).items(): end_states[k] = end_states.get(k, 0) + c
     cov = {
+        'evaluations': sum(r.get('sequences', 0) for r in rs), 'distinct_nontrivial': len(end_states),
         'states': len(end_states), 'transitions': sum(r.get('ops', 0) for r in rs),
         'traces_validated_against_impl': sum(r.get('sequences', 0) for r in rs),
         'sequences': sum(r.get('sequences', 0) for r in rs), 'depth': rs[0].get('depth'),
